@@ -19,69 +19,73 @@ reached by the mutant oracle of `vlib/c06.py` only (claim label: proof (partial)
 -/
 namespace SamVerif.IntRange
 
-/-! ## Integer literal range gate -/
+/-! ## Integer literal range gate (code as of fix commit d5c9a21)
 
-/-- Exact description of the code, for every raw token stream: a literal is reported as
-"Not a 32-bit integer." iff it exceeds 2³¹, or it is 2³¹ *and is the very first token*. -/
-theorem literal_error_iff (rs : List Raw) (i v : Nat) (h : rs[i]? = some (.int v)) :
-    (produce rs).2[i]? = some true ↔ (maxP1 < v ∨ (v = maxP1 ∧ i = 0)) := by
-  simpa [produce] using run_err none rs i v h
+Historical note: before the fix the gate rejected the literal 2³¹ only as the very first token of a
+file (finding C06-F1, design probe P11); this file then held `int_range_exact_counterexample`
+(witness `( 2147483648`), `int_range_exact_partial` and the analogous pair for
+`accepted_literals_faithful`. The fixed code satisfies the full-strength statements below. -/
 
+/-- A literal, as written at index `i`, directly follows a `-` token. -/
+theorem prevIsMinus_iff (rs : List Raw) (i : Nat) :
+    prevIsMinus none rs i ↔ ∃ j, i = j + 1 ∧ rs[j]? = some .minus := by
+  cases i with
+  | zero => simp [prevIsMinus]
+  | succ j => simp [prevIsMinus]
+
+/-- **Full strength.** For every raw token stream and every integer literal in it: the literal
+passes the gate without an error iff it is a 32-bit integer as written (below 2³¹, or exactly 2³¹
+directly preceded by `-`). -/
+theorem int_range_exact (rs : List Raw) (i v : Nat) (h : rs[i]? = some (.int v)) :
+    (produce rs).2[i]? = some false ↔ InRange rs i v := by
+  have := run_err_false none rs i v h
+  simp only [produce, this, InRange, ← prevIsMinus_iff]
+  constructor
+  · intro hn
+    rcases Nat.lt_trichotomy v maxP1 with hlt | heq | hgt
+    · exact Or.inl hlt
+    · refine Or.inr ⟨heq, ?_⟩
+      apply Classical.byContradiction
+      intro hc
+      exact hn (Or.inr ⟨heq, hc⟩)
+    · exact absurd (Or.inl hgt) hn
+  · rintro (hlt | ⟨heq, hm⟩) hbad
+    · rcases hbad with hgt | ⟨heq, _⟩ <;> omega
+    · rcases hbad with hgt | ⟨_, hnm⟩
+      · omega
+      · exact hnm hm
+
+example : (produce [.other 0, .int maxP1]).2 = [false, true] := by decide
+example : (produce [.minus, .int maxP1]).2 = [false, false] := by decide
 example : (produce [.other 0, .int 5, .int 2147483649]).2 = [false, false, true] := by decide
+
+/-- Equivalent reading: an error is reported exactly for the out-of-range literals. -/
+theorem literal_error_iff (rs : List Raw) (i v : Nat) (h : rs[i]? = some (.int v)) :
+    (produce rs).2[i]? = some true ↔ ¬ InRange rs i v := by
+  have := run_err none rs i v h
+  simp only [produce, this, InRange, ← prevIsMinus_iff]
+  constructor
+  · rintro (hgt | ⟨heq, hnm⟩) (hlt | ⟨heq', hm⟩)
+    · omega
+    · omega
+    · omega
+    · exact hnm hm
+  · intro hn
+    rcases Nat.lt_trichotomy v maxP1 with hlt | heq | hgt
+    · exact absurd (Or.inl hlt) hn
+    · exact Or.inr ⟨heq, fun hm => hn (Or.inr ⟨heq, hm⟩)⟩
+    · exact Or.inl hgt
 
 /-- One error flag per raw token, never more. -/
 theorem errors_aligned (rs : List Raw) : (produce rs).2.length = rs.length :=
   run_errs_length none rs
 
-/-- Everything above 2³¹ is rejected wherever it stands (full strength, no side condition). -/
+/-- Everything above 2³¹ is rejected wherever it stands. -/
 theorem above_range_always_rejected (rs : List Raw) (i v : Nat) (h : rs[i]? = some (.int v))
     (hv : maxP1 < v) : (produce rs).2[i]? = some true :=
-  (literal_error_iff rs i v h).2 (Or.inl hv)
+  (run_err none rs i v h).2 (Or.inl hv)
 
 example : (produce [.minus, .int 2147483649]).2 = [false, true] := by decide
-
-/-
-FULL-STRENGTH STATEMENT (the property): for every token stream, a literal passes without an error
-iff it is a 32-bit integer as written:
-
-  theorem int_range_exact (rs : List Raw) (i v : Nat) (h : rs[i]? = some (.int v)) :
-      (produce rs).2[i]? = some false ↔ InRange rs i v
-
-The unchanged code falsifies it (design probe P11): 2³¹ after any token other than `-` passes.
--/
-theorem int_range_exact_counterexample :
-    ¬ ∀ (rs : List Raw) (i v : Nat), rs[i]? = some (.int v) →
-        ((produce rs).2[i]? = some false ↔ InRange rs i v) := by
-  intro h
-  have := (h [.other 0, .int maxP1] 1 maxP1 rfl).1 (by decide)
-  rcases this with h1 | ⟨_, j, hj, hm⟩
-  · exact absurd h1 (by decide)
-  · have : j = 0 := by omega
-    subst this
-    exact absurd hm (by decide)
-
-/-- `_partial`: exact under the side condition "this literal is not 2³¹, or it is the first token,
-or it directly follows a `-`" (decidable per token; satisfied e.g. by every literal < 2³¹). -/
-theorem int_range_exact_partial (rs : List Raw) (i v : Nat) (h : rs[i]? = some (.int v))
-    (side : v = maxP1 → i = 0 ∨ ∃ j, i = j + 1 ∧ rs[j]? = some .minus) :
-    (produce rs).2[i]? = some false ↔ InRange rs i v := by
-  have := run_err_false none rs i v h
-  simp only [produce, this, InRange]
-  constructor
-  · intro hn
-    rcases Nat.lt_trichotomy v maxP1 with hlt | heq | hgt
-    · exact Or.inl hlt
-    · rcases side heq with h0 | hj
-      · exact absurd (Or.inr ⟨heq, h0, trivial⟩) hn
-      · exact Or.inr ⟨heq, hj⟩
-    · exact absurd (Or.inl hgt) hn
-  · rintro (hlt | ⟨heq, j, hj, _⟩) hbad
-    · rcases hbad with hgt | ⟨heq, _⟩ <;> omega
-    · rcases hbad with hgt | ⟨_, h0, _⟩ <;> omega
-
-example : (produce [.minus, .int maxP1]).2[1]? = some false ∧ InRange [.minus, .int maxP1] 1 maxP1 :=
-  ⟨by decide, Or.inr ⟨rfl, 0, rfl, rfl⟩⟩
-example : (produce [.int maxP1]).2[0]? = some true := by decide
 
 /-- Nothing is lost or invented by the one-token buffer: un-merging the yielded tokens gives back
 exactly the raw stream (so no literal can escape the gate by being dropped). -/
@@ -91,24 +95,10 @@ theorem producer_conserves_tokens (rs : List Raw) : expand (produce rs).1 = rs :
 example : (produce [.other 1, .minus, .int maxP1, .minus]).1 =
     [.raw (.other 1), .negMin, .raw .minus] := by decide
 
-/-
-FULL-STRENGTH STATEMENT: if no error is reported, every integer token the parser receives is read
-as the value that was written, and that value is a 32-bit integer:
-
-  theorem accepted_literals_faithful (rs : List Raw) (hok : ∀ b ∈ (produce rs).2, b = false)
-      (t : Tok) (ht : t ∈ (produce rs).1) (w : Int) (hw : writtenValue t = some w) :
-      parserValue t = some w ∧ -(maxP1 : Int) ≤ w ∧ w < maxP1
-
-Falsified by the unchanged code: `( 2147483648` is accepted without an error and read as `0`.
--/
-theorem accepted_literals_faithful_counterexample :
-    ∃ (rs : List Raw), (∀ b ∈ (produce rs).2, b = false) ∧
-      ∃ t ∈ (produce rs).1, ∃ w, writtenValue t = some w ∧ parserValue t ≠ some w :=
-  ⟨[.other 0, .int maxP1], by decide, .raw (.int maxP1), by decide, (maxP1 : Int), rfl, by decide⟩
-
-/-- `_partial`: under `Guarded` (every literal 2³¹ is the first token or directly follows `-`),
-a run without errors hands the parser only literals it reads faithfully, all within 32 bits. -/
-theorem accepted_literals_faithful_partial (rs : List Raw) (hg : Guarded rs)
+/-- **Full strength.** If no error is reported, every integer token the parser receives is read
+(`parse::<i32>().unwrap_or(0)`) as exactly the value that was written, and that value is a 32-bit
+integer. -/
+theorem accepted_literals_faithful (rs : List Raw)
     (hok : ∀ b ∈ (produce rs).2, b = false)
     (t : Tok) (ht : t ∈ (produce rs).1) (w : Int) (hw : writtenValue t = some w) :
     parserValue t = some w ∧ -(maxP1 : Int) ≤ w ∧ w < maxP1 := by
@@ -126,40 +116,23 @@ theorem accepted_literals_faithful_partial (rs : List Raw) (hg : Guarded rs)
       subst hw
       rcases mem_run_int none rs v ht with hp | ⟨i, hi, hn⟩
       · simp at hp
-      · -- no error at i
-        have hlen := run_errs_length none rs
-        have hil : i < rs.length := by
-          rcases Nat.lt_or_ge i rs.length with h' | h'
-          · exact h'
-          · simp [List.getElem?_eq_none h'] at hi
-        have hne : (produce rs).2[i]? ≠ some true := by
+      · have hne : (produce rs).2[i]? ≠ some true := by
           intro hc
           have := hok _ (List.mem_of_getElem? hc)
           simp at this
-        have hchar := literal_error_iff rs i v hi
-        have hnot : ¬ (maxP1 < v ∨ (v = maxP1 ∧ i = 0)) := fun hc => hne (hchar.2 hc)
+        have hchar := run_err none rs i v hi
+        have hnot : ¬ (maxP1 < v ∨ (v = maxP1 ∧ ¬ prevIsMinus none rs i)) := fun hc => hne (hchar.2 hc)
         have hlt : v < maxP1 := by
           rcases Nat.lt_trichotomy v maxP1 with hlt | heq | hgt
           · exact hlt
           · exfalso
-            subst heq
-            rcases hg i hi with h0 | ⟨j, hj, hm⟩
-            · exact hnot (Or.inr ⟨rfl, h0⟩)
-            · apply hn
-              refine ⟨rfl, ?_⟩
-              subst hj
-              simpa [prevIsMinus] using hm
+            exact hnot (Or.inr ⟨heq, fun hm => hn ⟨heq, hm⟩⟩)
           · exact absurd (Or.inl hgt) hnot
         refine ⟨by simp [parserValue, hlt], by simp [maxP1] <;> omega, by exact_mod_cast hlt⟩
 
-example : Guarded [.other 3, .int 7, .minus, .int maxP1] := by
-  intro i hi
-  match i with
-  | 0 => simp at hi
-  | 1 => simp [maxP1] at hi
-  | 2 => simp at hi
-  | 3 => exact Or.inr ⟨2, rfl, rfl⟩
-  | n + 4 => simp at hi
+example : (produce [.other 3, .int 7, .minus, .int maxP1]).2 = [false, false, false, false] ∧
+    (produce [.other 3, .int 7, .minus, .int maxP1]).1 = [.raw (.other 3), .raw (.int 7), .negMin] := by
+  decide
 
 end SamVerif.IntRange
 
@@ -236,6 +209,94 @@ example : assignable (.fn [.any true] (.any true)) (.fn [.any true, .any true] (
 /-- Call-site arity gate (`main_checker.rs:766`): accepted iff the counts agree. -/
 theorem call_arity_gate (expected actual : Nat) : arityOk expected actual = true ↔ expected = actual := by
   simp [arityOk]
+
+/-! ## Branch joins: if / else-if chains and match arms -/
+
+/-- **Full strength.** An if / else-if chain of any length whose branch types contain no `any` is
+accepted iff *every* branch has the type of the first one. Hence a chain with one differently
+typed branch — first, interior or last, whatever the context expects — has no accepted typing. -/
+theorem ifChain_join_exact (a : Ty) (rest : List Ty) (h : anyFreeL (a :: rest) = true) :
+    ifChainOk (a :: rest) = true ↔ ∀ t ∈ rest, t = a := by
+  induction rest generalizing a with
+  | nil => simp [ifChainOk]
+  | cons b rest ih =>
+    simp only [anyFreeL, Bool.and_eq_true] at h
+    have hb : anyFreeL (b :: rest) = true := by simp [anyFreeL, h.2.1, h.2.2]
+    have h1 := assignable_iff_eq b a h.2.1 h.1
+    simp only [ifChainOk, Bool.and_eq_true, h1, ih b hb, List.mem_cons, forall_eq_or_imp]
+    constructor
+    · rintro ⟨rfl, h2⟩; exact ⟨rfl, h2⟩
+    · rintro ⟨rfl, h2⟩; exact ⟨rfl, h2⟩
+
+/-- One wrongly typed branch at *any* position of a chain of >= 2 branches is rejected. -/
+theorem ifChain_one_wrong_branch_rejected (a t : Ty) (pre post : List Ty)
+    (hpre : ∀ x ∈ pre, x = a) (hpost : ∀ x ∈ post, x = a) (hne : t ≠ a)
+    (hlen : pre ≠ [] ∨ post ≠ []) (ha : anyFree a = true) (ht : anyFree t = true) :
+    ifChainOk (pre ++ t :: post) = false := by
+  have hall : ∀ (l : List Ty), (∀ x ∈ l, x = a) → anyFreeL l = true := by
+    intro l hl
+    induction l with
+    | nil => rfl
+    | cons x xs ih =>
+      have hx : x = a := hl x (by simp)
+      simp [anyFreeL, hx, ha, ih (fun y hy => hl y (by simp [hy]))]
+  have hfree : anyFreeL (pre ++ t :: post) = true := by
+    have : ∀ (l m : List Ty), anyFreeL l = true → anyFreeL m = true → anyFreeL (l ++ m) = true := by
+      intro l m hl hm
+      induction l with
+      | nil => simpa using hm
+      | cons x xs ih =>
+        simp only [anyFreeL, Bool.and_eq_true] at hl
+        simp [anyFreeL, hl.1, ih hl.2]
+    exact this pre (t :: post) (hall pre hpre) (by simp [anyFreeL, ht, hall post hpost])
+  cases hc : ifChainOk (pre ++ t :: post) with
+  | false => rfl
+  | true =>
+    exfalso
+    cases pre with
+    | nil =>
+      simp only [List.nil_append] at hc hfree
+      have := (ifChain_join_exact t post hfree).1 hc
+      cases post with
+      | nil => simp at hlen
+      | cons y ys =>
+        have h1 : y = t := this y (by simp)
+        have h2 : y = a := hpost y (by simp)
+        exact hne (h1.symm.trans h2)
+    | cons x xs =>
+      simp only [List.cons_append] at hc hfree
+      have := (ifChain_join_exact x (xs ++ t :: post) hfree).1 hc t (by simp)
+      have hx : x = a := hpre x (by simp)
+      exact hne (this.trans hx)
+
+example : ifChainOk [.prim .int, .prim .bool, .prim .int, .prim .int] = false := by decide
+example : ifChainOk [.prim .int, .prim .int, .prim .int] = true := by decide
+
+/-- **Full strength.** Match arms without `any` are accepted iff every arm has the type of the
+first one. -/
+theorem match_join_exact (a : Ty) (rest : List Ty) (h : anyFreeL (a :: rest) = true) :
+    matchArmsOk (a :: rest) = true ↔ ∀ t ∈ rest, t = a := by
+  simp only [anyFreeL, Bool.and_eq_true] at h
+  simp only [matchArmsOk, List.all_eq_true]
+  have hmem : ∀ t ∈ rest, anyFree t = true := by
+    have : ∀ (l : List Ty), anyFreeL l = true → ∀ t ∈ l, anyFree t = true := by
+      intro l
+      induction l with
+      | nil => intro _ t ht; simp at ht
+      | cons x xs ih =>
+        intro hl t ht
+        simp only [anyFreeL, Bool.and_eq_true] at hl
+        rcases List.mem_cons.1 ht with rfl | ht'
+        · exact hl.1
+        · exact ih hl.2 t ht'
+    exact this rest h.2
+  constructor
+  · intro hall t ht
+    exact (assignable_iff_eq t a (hmem t ht) h.1).1 (hall t ht)
+  · intro hall t ht
+    exact (assignable_iff_eq t a (hmem t ht) h.1).2 (hall t ht)
+
+example : matchArmsOk [.prim .int, .prim .int, .prim .bool] = false := by decide
 
 /-- Correct programs are not rejected by this gate: every type is assignable to itself. -/
 theorem assignable_reflexive (a : Ty) : assignable a a = true := assignable_refl a
